@@ -505,6 +505,27 @@ def support(rng, tier):
             ('temporal subset_obs', td.subset_obs('trial', np.float64(trial[k])).obs_descriptors['trial'], [trial[k]]),
             ('subset_time', td.subset_time('time', times[1], times[1]).time_descriptors['time'], [times[1]]),
         ]
+        # descriptors holding one vector per item (channel coordinates, a position per observation) travel with their items through
+        # subset / split / sort (seeded change C11-m10)
+        coord = np.array([[10 * i + 1, 10 * i + 2, 10 * i + 3] for i in range(n_ch)], float)
+        where = np.array([[100 * i + 1, 100 * i + 2] for i in range(n_obs)], float)
+        cond = [int(x) for x in rs.randint(0, 3, size=n_obs)]
+        d2 = rsatoolbox.data.Dataset(meas[:, :, 0].copy(), obs_descriptors={'cond': cond, 'where': where, 'oid': list(range(n_obs))},
+                                     channel_descriptors={'coord': coord, 'cid': list(range(n_ch))})
+        outs = [('subset_channel', d2.subset_channel('cid', [c for c in range(n_ch) if c != 0] or [0])),
+                ('subset_obs', d2.subset_obs('cond', cond[0]))] + [('split_obs', x) for x in d2.split_obs('cond')]
+        srt = d2.copy()
+        srt.sort_by('cond')
+        outs.append(('sort_by', srt))
+        for name, r in outs:
+            okc = np.asarray(r.channel_descriptors['coord'], float).reshape(r.n_channel, -1).tolist() == \
+                [[10 * i + 1, 10 * i + 2, 10 * i + 3] for i in r.channel_descriptors['cid']]
+            oko = np.asarray(r.obs_descriptors['where'], float).reshape(r.n_obs, -1).tolist() == \
+                [[100 * i + 1, 100 * i + 2] for i in r.obs_descriptors['oid']]
+            res.append((f'vector_valued_descriptors_follow_their_items_{name}_{rep}', bool(okc and oko),
+                        dict(operation=name, channel_ids=[int(i) for i in r.channel_descriptors['cid']],
+                             coord=np.asarray(r.channel_descriptors['coord'], float).tolist(),
+                             obs_ids=[int(i) for i in r.obs_descriptors['oid']], where=np.asarray(r.obs_descriptors['where'], float).tolist())))
         for name, got, want in checks:
             got = [float(x) for x in np.atleast_1d(got)]
             res.append((f'float_descriptor_{name.replace(" ", "_")}_{rep}', got == [float(x) for x in want],
